@@ -73,7 +73,10 @@ ENERGY = bytes([0xC1, 0x21, 0x01, 0x44, 0, 0, 0x12, 0x34, 0, 0, 0, 0, 0, 0, 0, 0
 HUMID = bytes([0xC1, 0x21, 0x01, 0x45, 47, 0, 0, 0])
 
 
-def scenario(ctx, ver, want, *, extras, cutmode, seed, stale_first, v2_split, rich=False):
+HISTORIES = ["plain", "idle_close", "lifetime", "reapply_after_other", "reapply_after_other_refreshed", "reapply_same"]
+
+
+def scenario(ctx, ver, want, *, extras, cutmode, seed, stale_first, v2_split, rich=False, history="plain"):
     """One A-applies / B-refreshes scenario.  Returns the vector for TLC."""
     from msmart.device import AirConditioner as AC
     import random
@@ -117,7 +120,7 @@ def scenario(ctx, ver, want, *, extras, cutmode, seed, stale_first, v2_split, ri
                     loop.call_soon(tr.feed, s)
     dev.respond = respond
     vec = {"seed": seed, "early_extra": False, "ver": ver, "want": want, "raised": "", "apply_rx": [], "tx": [], "online": False, "extras": [list(extras[0]), list(extras[1])],
-           "cutmode": cutmode, "stale_first": stale_first, "v2_split": v2_split, "rich": rich}
+           "cutmode": cutmode, "stale_first": stale_first, "v2_split": v2_split, "rich": rich, "history": history}
 
     async def go():
         a = AC(ip="10.0.0.5", port=6444, device_id=devid)
@@ -125,8 +128,34 @@ def scenario(ctx, ver, want, *, extras, cutmode, seed, stale_first, v2_split, ri
         try:
             if ver == 3:
                 await a.authenticate(tok, key)
+            if history == "lifetime":
+                a.set_max_connection_lifetime(rng.choice([5, 30, 90]))
             await a.refresh()
-            if stale_first:
+            if history == "idle_close":
+                # the appliance closes the idle connection between two operations (V3: the negotiated key is still valid)
+                await asyncio.sleep(rng.choice([0.5, 20, 300]))
+                net.conns[-1].peer_close()
+                await asyncio.sleep(rng.choice([0, 0.5, 3]))
+            elif history == "lifetime":
+                await asyncio.sleep(rng.choice([91, 200]))          # the configured connection lifetime elapses while the client is idle
+            elif history.startswith("reapply"):
+                # A applies the requested state once; then somebody else (another client instance / the remote control) changes the appliance
+                # (or nobody does: reapply_same); A - with or without refreshing - requests the same state again
+                apply_state(AC, a, want, rng)
+                await a.apply()
+                await asyncio.sleep(1)
+                if history != "reapply_same":
+                    other = rand_state(rng)
+                    c = AC(ip="10.0.0.5", port=6444, device_id=devid)
+                    if ver == 3:
+                        await c.authenticate(tok, key)
+                    apply_state(AC, c, other, rng)
+                    await c.apply()
+                    await asyncio.sleep(1)
+                if history == "reapply_after_other_refreshed":
+                    await a.refresh()
+                    await asyncio.sleep(1)
+            if stale_first and history in ("plain", "reapply_same"):
                 # an unsolicited report of the OLD state reaches A while it is idle and sits in its queue
                 ac.stale = ac.state_frame(ftype=5)
                 tr = net.conns[-1]
@@ -264,7 +293,8 @@ def plan(ctx, k, rng):
     nb, na = rng.choice([0, 0, 1, 2]), rng.choice([0, 0, 1, 2])
     extras = (tuple(rng.choice(EXTRAS) for _ in range(nb)), tuple(rng.choice(EXTRAS) for _ in range(na)))
     cutmode = rng.choice(["none", "one", "one", "few", "few", "bytewise"]) if ver == 3 else "none"
-    return dict(ver=ver, extras=extras, cutmode=cutmode, stale_first=rng.random() < 0.35, v2_split=False, rich=rng.random() < 0.3)
+    return dict(ver=ver, extras=extras, cutmode=cutmode, stale_first=rng.random() < 0.35, v2_split=False, rich=rng.random() < 0.3,
+                history=rng.choice(HISTORIES) if rng.random() < 0.4 else "plain")
 
 
 def run(ctx: Ctx) -> int:
@@ -298,7 +328,7 @@ def run(ctx: Ctx) -> int:
     for k, w in enumerate(ws):
         p = plan(ctx, k, ctx.rng)
         vectors.append(scenario(ctx, want=w, seed=ctx.seed * 1000003 + k, **p))
-        ctx.count_distinct((p["ver"], p["extras"], p["cutmode"], p["stale_first"], tuple(sorted(w.items()))))
+        ctx.count_distinct((p["ver"], p["extras"], p["cutmode"], p["stale_first"], p["history"], tuple(sorted(w.items()))))
     # V2 segmentation (DESIGN D7): replies split across segments and coalesced with extra frames
     v2seg = []
     for k in range(ctx.pick(200, 3000)):
@@ -329,9 +359,9 @@ def run(ctx: Ctx) -> int:
         v = allv[i]
         if clause.startswith("harness"):
             raise MachineryError(f"Trace_C01: {clause} (vector {i})")
-        ctx.violation(f"V{v['ver']} extras={v['extras']} cuts={v['cutmode']} stale_first={v['stale_first']} v2_split={v['v2_split']}", clause,
+        ctx.violation(f"V{v['ver']} extras={v['extras']} cuts={v['cutmode']} stale_first={v['stale_first']} v2_split={v['v2_split']} history={v.get('history', 'plain')}", clause,
                       {"ver": v["ver"], "want": v["want"], "extras": v["extras"], "cutmode": v["cutmode"], "stale_first": v["stale_first"], "v2_split": v["v2_split"],
-                       "clause": clause, "seed_index": i, "scenario_seed": v.get("seed", 0), "rich": v.get("rich", False), "early_extra": v.get("early_extra", False), "v2_no_reassembly": bool(v["ver"] == 2 and v["v2_split"])})
+                       "clause": clause, "history": v.get("history", "plain"), "seed_index": i, "scenario_seed": v.get("seed", 0), "rich": v.get("rich", False), "early_extra": v.get("early_extra", False), "v2_no_reassembly": bool(v["ver"] == 2 and v["v2_split"])})
     ctx.sample({"ver": vectors[0]["ver"], "want": vectors[0]["want"], "extras": vectors[0]["extras"], "frame_0x40": bytes(vectors[0]["apply_rx"][0]).hex() if vectors[0]["apply_rx"] else ""})
     return ctx.finish(
         rule="every value of every settable field (others seeded-random), setpoints x modes, random states, display via toggle; V2 and V3 alternating; "
@@ -348,7 +378,7 @@ def replay(ctx: Ctx, path: str) -> int:
         ctx.notes.append("V2 stream cases are re-run by the full check (v2_stream_traces); this replay only re-validates the recorded stream")
         return ctx.finish(rule="replay of one recorded V2 stream case (see note)")
     v = scenario(ctx, c["ver"], c["want"], extras=(tuple(c["extras"][0]), tuple(c["extras"][1])), cutmode=c["cutmode"], seed=c.get("scenario_seed", ctx.seed),
-                 stale_first=c["stale_first"], v2_split=c["v2_split"], rich=c.get("rich", False))
+                 stale_first=c["stale_first"], v2_split=c["v2_split"], rich=c.get("rich", False), history=c.get("history", "plain"))
     for i, clause in ctx.validate_vectors("Trace_C01", [v]):
         ctx.violation("replayed scenario", clause, c)
     return ctx.finish(rule="replay of one recorded scenario")
